@@ -2142,8 +2142,17 @@ class Circuit(Unitary, StateVectorMap, Collection[Operation]):
     def batch_unfold(self, points: Sequence[CircuitPointLike]) -> None:
         """Unfold the CircuitGates at `points` into the circuit."""
         points = {(point[0], self[point].location[0]) for point in points}
-        for point in reversed(sorted(points)):
+        todo = sorted(points, reverse=True)
+        for i, point in enumerate(todo):
+            num_cycles = self.num_cycles
             self.unfold(point)
+
+            # Unfolding inserts new cycles at `point`'s cycle, which pushes
+            # the blocks that shared that cycle to the right.
+            grown = self.num_cycles - num_cycles
+            for j in range(i + 1, len(todo)):
+                if todo[j][0] == point[0]:
+                    todo[j] = (todo[j][0] + grown, todo[j][1])
 
     def unfold_all(self) -> None:
         """Unfold all CircuitGates in the circuit."""
